@@ -39,12 +39,14 @@ func (e *Engine) clauseOfPred(fn *ssa.Function, pred string) (*Contract, *Clause
 // components in which code may write objects that existed before the code started
 // (writes to objects it allocates itself are not effects a caller can observe).
 type writeScanner struct {
-	points  []ssa.Value // addresses of single cells written (values of the enclosing frame)
-	pointOK bool        // collect point writes (only when scanning the blocks of the frame itself)
-	e       *Engine
-	keys    map[string]bool
-	seen    map[string]bool
-	phiSeen map[*ssa.Phi]bool
+	fieldPoints []*ssa.FieldAddr // fields written through pointers computed outside the scope
+	slicePoints []ssa.Value      // slices (computed outside the scope) whose elements are written
+	points      []ssa.Value      // addresses of single cells written (values of the enclosing frame)
+	pointOK     bool             // collect point writes (only when scanning the blocks of the frame itself)
+	e           *Engine
+	keys        map[string]bool
+	seen        map[string]bool
+	phiSeen     map[*ssa.Phi]bool
 }
 
 func (ws *writeScanner) isFreshRoot(v ssa.Value, inScope func(ssa.Instruction) bool, paramFresh map[*ssa.Parameter]bool, depth int) bool {
@@ -117,11 +119,49 @@ func (ws *writeScanner) scanIns(ins ssa.Instruction, inScope func(ssa.Instructio
 		if ws.isFreshRoot(x.Addr, inScope, paramFresh, 0) {
 			return
 		}
+		outside := func(v ssa.Value) bool {
+			if !ws.pointOK {
+				return false
+			}
+			switch y := v.(type) {
+			case *ssa.Parameter:
+				return paramFresh == nil
+			case ssa.Instruction:
+				return !inScope(y)
+			}
+			return false
+		}
 		switch a := x.Addr.(type) {
 		case *ssa.FieldAddr:
-			st := a.X.Type().(*types.Pointer).Elem()
-			keys["F:"+typeKey(st)+"."+under(st).(*types.Struct).Field(a.Field).Name()] = true
+			if outside(a.X) {
+				ws.fieldPoints = append(ws.fieldPoints, a)
+				return
+			}
+			// follow the chain of field selections to the object the pointer points into
+			names := []string{}
+			var base ssa.Value = a
+			for {
+				fa, ok := base.(*ssa.FieldAddr)
+				if !ok {
+					break
+				}
+				st := fa.X.Type().(*types.Pointer).Elem()
+				names = append([]string{under(st).(*types.Struct).Field(fa.Field).Name()}, names...)
+				base = fa.X
+			}
+			if ia, ok := base.(*ssa.IndexAddr); ok {
+				if sl, ok := under(ia.X.Type()).(*types.Slice); ok {
+					keys["E:"+typeKey(types.NewSlice(sl.Elem()))] = true
+					return
+				}
+			}
+			root := base.Type().(*types.Pointer).Elem()
+			keys["F:"+typeKey(root)+"."+strings.Join(names, ".")] = true
 		case *ssa.IndexAddr:
+			if _, isSl := under(a.X.Type()).(*types.Slice); isSl && outside(a.X) {
+				ws.slicePoints = append(ws.slicePoints, a.X)
+				return
+			}
 			switch xt := under(a.X.Type()).(type) {
 			case *types.Slice:
 				if os.Getenv("GOVC_DEBUG") != "" {
@@ -183,6 +223,12 @@ func (ws *writeScanner) scanIns(ins ssa.Instruction, inScope func(ssa.Instructio
 		}
 		if f == nil {
 			if cc.IsInvoke() {
+				if named, ok := cc.Value.Type().(*types.Named); ok && named.Obj().Pkg() != nil {
+					id := named.Obj().Pkg().Path() + ".(" + named.Obj().Name() + ")." + cc.Method.Name()
+					if c := e.w.Contracts[id]; c != nil && c.Options["pure"] {
+						return // an interface method declared pure has no effect on existing objects
+					}
+				}
 				for _, t := range e.implementations(cc.Value.Type()) {
 					ms := e.w.Prog.MethodSets.MethodSet(t)
 					if s := ms.Lookup(cc.Method.Pkg(), cc.Method.Name()); s != nil {
@@ -275,6 +321,8 @@ func (e *Engine) modSet(fr *frame, li *loopInfo) (keys map[string]bool, all bool
 		}
 	}
 	li.points = ws.points
+	li.fieldPoints = ws.fieldPoints
+	li.slicePoints = ws.slicePoints
 	return ws.keys, false
 }
 
@@ -469,6 +517,45 @@ func (e *Engine) enterLoop(fr *frame, li *loopInfo, reach string, heap Heap, con
 		e.guard = reach
 		e.store(h, e.asPtr(addr, pv.Type()), et, e.freshVal(et, "loopcell"))
 		e.guard = saveG
+	}
+	// fields written through loop-invariant pointers: havoc that field of that object only
+	for _, fa := range li.fieldPoints {
+		bv, ok := fr.vals[fa.X]
+		if !ok {
+			st := fa.X.Type().(*types.Pointer).Elem()
+			keys["F:"+typeKey(st)+"."+under(st).(*types.Struct).Field(fa.Field).Name()] = true
+			continue
+		}
+		stT := fa.X.Type().(*types.Pointer).Elem()
+		st := under(stT).(*types.Struct)
+		ft := st.Field(fa.Field).Type()
+		saveG := e.guard
+		e.guard = reach
+		e.store(h, e.asPtr(bv, fa.X.Type()).field(fa.Field, st.Field(fa.Field).Name()), ft, e.freshVal(ft, "loopfield"))
+		e.guard = saveG
+	}
+	// elements written through loop-invariant slices: havoc that backing array only
+	for _, sv := range li.slicePoints {
+		v, ok := fr.vals[sv]
+		sl, isS := v.(SliceVal)
+		et := under(sv.Type()).(*types.Slice).Elem()
+		if !ok || !isS {
+			keys["E:"+typeKey(types.NewSlice(et))] = true
+			continue
+		}
+		e.forLeaves(types.NewSlice(et), []pathElem{{field: -1}}, et, func(path []pathElem, suffix, leaf string, lt types.Type) {
+			c := e.comp(types.NewSlice(et), path, suffix, leaf)
+			if c.nidx != 1 {
+				keys["E:"+typeKey(types.NewSlice(et))] = true
+				return
+			}
+			fresh := e.sc.declare("looparr", arrSort(SI64, leaf))
+			cur := e.heapGet(h, c)
+			h[c.key] = e.sc.define("Hl_"+c.key, c.sort, sto(cur, sl.Arr, ite(reach, fresh, sel(cur, sl.Arr))))
+			if !e.isFresh(sl.Arr) {
+				e.dirty[c.key] = true
+			}
+		})
 	}
 	e.loopMods(li, keys)
 	e.pendingWrites = append(e.pendingWrites, keys)
